@@ -309,7 +309,7 @@ impl Engine for LoadEngine {
                 corpus.push(CorpusFile { name: format!("repo:{f}"), bytes: b, marks: vec![], rten: true });
             }
         }
-        let specials: Vec<(String, Base)> = vec![
+        let mut specials: Vec<(String, Base)> = vec![
             ("empty".into(), Base::Bytes(String::new())),
             ("magic only".into(), Base::Bytes(hex(b"RTEN"))),
             ("header only".into(), Base::Bytes(hex(&[b"RTEN".as_slice(), &2u32.to_le_bytes(), &32u64.to_le_bytes(), &0u64.to_le_bytes(), &32u64.to_le_bytes()].concat()))),
@@ -331,6 +331,43 @@ impl Engine for LoadEngine {
                 Base::Onnx(onnxenc::Model::new(g))
             }),
         ];
+        // External tensor data with lying ranges. For the file entry points a 64-byte sibling `w.data`
+        // exists in the sandbox, so the range is what decides (declared lengths far beyond the file must be
+        // load errors, not allocations).
+        for (off, len) in [(0u64, 16u64), (60, 8), (0, 1 << 47), (0, 1 << 62), (16, i64::MAX as u64), (1 << 63, 8), (u64::MAX, 8), (u64::MAX - 7, 16)] {
+            let g = onnxenc::Graph {
+                name: "g".into(),
+                nodes: vec![onnxenc::Node::new("Add", &["x", "w"], &["y"])],
+                initializers: vec![onnxenc::Tensor {
+                    name: "w".into(),
+                    dims: vec![4],
+                    dtype: dtype::FLOAT,
+                    data: TensorData::External { location: "w.data".into(), offset: Some(off.to_string()), length: Some(len.to_string()), extra: vec![] },
+                }],
+                inputs: vec![onnxenc::ValueInfo::new("x", dtype::FLOAT, &[4])],
+                outputs: vec![onnxenc::ValueInfo::new("y", dtype::FLOAT, &[4])],
+                value_info: vec![],
+            };
+            specials.push((format!("onnx external data offset {off} length {len}"), Base::Onnx(onnxenc::Model::new(g))));
+        }
+        // An over-long varint (12 continuation bytes) that starts 0..10 bytes before the 8 KiB mark, where
+        // the buffered file reader refills: a producer_name field pads the file up to that point.
+        for d in 0..=10usize {
+            let start = 8192 - d;
+            let mut l = start - 3;
+            while 1 + onnxenc::varint(l as u64).len() + l != start {
+                l += 1;
+                if l > start {
+                    break;
+                }
+            }
+            let mut b = vec![0x12u8];
+            b.extend(onnxenc::varint(l as u64));
+            b.extend(std::iter::repeat(b'a').take(l));
+            b.extend([0xffu8; 12]);
+            b.extend([0x01, 0x08, 0x08]);
+            specials.push((format!("onnx over-long varint at file offset {}", b.len() - 15), Base::Bytes(hex(&b))));
+        }
         let mut sections = Vec::new();
         let mut at = 0u64;
         let mut push = |s: Section, n: u64, at: &mut u64| {
@@ -536,6 +573,8 @@ impl Engine for LoadEngine {
                 let dir = self.sandbox.join(format!("p{}", std::process::id()));
                 let _ = std::fs::create_dir_all(&dir);
                 let path = dir.join(format!("model.{fmt}"));
+                // sibling data file for external tensors
+                let _ = std::fs::write(dir.join("w.data"), (0u8..64).collect::<Vec<u8>>());
                 let _ = std::fs::remove_dir_all(&path);
                 let _ = std::fs::remove_file(&path);
                 let disk = match &case.entry {
